@@ -6,8 +6,10 @@
    Unspec (powers with non-integer exponents, min/max over two or more sets) is outside the property's quantifier. *)
 From Coq Require Import ZArith QArith Qround List Bool.
 From PV Require Import Expr.Values Expr.Syntax Expr.Literals Expr.Sem Expr.Eval Expr.Grammar Expr.Spec
-  Expr.ProofsArith Expr.ProofsEval Expr.ProofsGrammar Expr.ProofsRejects Expr.ProofsLit Expr.ProofsSet.
+  Expr.Parser Expr.ProofsArith Expr.ProofsEval Expr.ProofsGrammar Expr.ProofsRejects Expr.ProofsLit Expr.ProofsSet
+  Expr.ProofsParser Expr.ProofsRoundtrip.
 Import ListNotations.
+Open Scope Q_scope.
 
 (* the dispatch incl. operand swapping computes the Specification's table - for all expression trees and environments *)
 Theorem C04_eval_exact : forall g e, eval g e = sem g e.
@@ -77,6 +79,22 @@ Proof.
   intros e. split; [apply render_min_derives|]. split; [apply strip_parenthesize|]. intros g. apply eval_parenthesize.
 Qed.
 Print Assumptions C04_precedence.
+
+(* The expression rules as a deterministic parser with PEG semantics (ordered choice, greedy repetition, optional
+   group): whatever it returns is a derivation of the grammar, and it reads the rendering of ANY tree back as exactly
+   that tree - so the rendered text has no second reading under the model of the PEG. *)
+Theorem C04_parser_sound : forall ts e, parse_expr ts = Some e -> Derives 0 ts e.
+Proof. exact parse_sound. Qed.
+Print Assumptions C04_parser_sound.
+
+Theorem C04_precedence_roundtrip : forall e, parse_expr (render_min e) = Some (parenthesize e).
+Proof. exact parse_render. Qed.
+Print Assumptions C04_precedence_roundtrip.
+
+(* consequently two trees that differ by more than parentheses never render to the same text *)
+Theorem C04_render_injective : forall e1 e2, render_min e1 = render_min e2 -> strip e1 = strip e2.
+Proof. exact render_injective. Qed.
+Print Assumptions C04_render_injective.
 
 (* a-b-c groups left, a**b**c groups right, -a**b is -(a**b), a**-b is allowed, || and && share one level,
    * binds tighter than +, ! applies to the whole comparison *)
